@@ -149,6 +149,12 @@ def handle_request(u: U):
     if kind == "raise" and isinstance(exc, (asyncio.TimeoutError, Boom)) and out.ok:
         u.check("C05.handle.error_response_only_if_nothing_sent", sent == 0,
                 "an error page is produced only when nothing of a response was sent yet")
+    if kind == "raise" and isinstance(exc, HTTPException) and out.ok:
+        u.check("C05.handle.http_exception_response_only_if_nothing_sent", sent == 0,
+                "a handler that has already started a response (prepare() + write()) and then raises an HTTPException "
+                "does not get a second, complete response written into the unfinished first one: as for any other "
+                "exception the connection is dropped instead - one request, one response",
+                known=[("F05a", True)], witness={"output_size": sent})
 
 
 # ---------------------------------------------------------------------------------------------------------------
